@@ -186,6 +186,188 @@ def outcomeOf (d : SwDecision) (st : PState) : POutcome :=
   | .assignWord _ => .assignWord
   | .fail _ => .error
 
+
+/-! ## The initial expansion, declaratively (XCU 2.6.1–2.6.4 on the modelled fragment)
+
+  The result of expanding a word is a *list of fields* of attributed characters (no `Phrase`
+  shapes).  Adjacent units are concatenated with `joinFields`; double quotes expand their
+  content in a non-splitting context and wrap every resulting field; a parameter's value gives one
+  field (scalar), one field per element (`$@`, `$*`, arrays) or the elements joined by the first
+  IFS character (`$*` where no splitting will happen); switches follow `posixTable`. -/
+
+abbrev Fields := List (List AttrChar)
+abbrev SRes := Env × Except Err Fields
+
+/-- the separator of `$*` as an attributed character -/
+def sepAttr (env : Env) : List AttrChar := ((sepChar env).map softChar).toList
+
+/-- fields joined into one by the separator -/
+def joinBySep (env : Env) (fs : Fields) : List AttrChar := List.intercalate (sepAttr env) fs
+
+/-- the fields a (possibly absent) value stands for -/
+def valueFields : Option Value → Fields
+  | none => [[]]
+  | some (.scalar s) => [toField s]
+  | some (.array vs) => vs.map toField
+
+/-- `$*` is joined where the result will not be split; everything else is the value's fields -/
+def paramFields (env : Env) (willSplit : Bool) (p : Param) (v : Option Value) : Fields :=
+  if willSplit = false ∧ p = .star then [joinBySep env (valueFields v)] else valueFields v
+
+/-- characters produced by a switch word count as results of the parameter expansion -/
+def soften (fs : Fields) : Fields :=
+  fs.map (·.map fun c => if c.origin = .literal then { c with origin := .softExpansion } else c)
+
+/-- the vacancy reported in error messages -/
+def vacancyOf (v : Option Value) : Vacancy := (Vacancy.of v).getD .unset
+
+mutual
+  def posixTextUnit (env : Env) (willSplit : Bool) : TextUnit → SRes
+    | .lit c => (env, .ok [[{ value := c, origin := .literal, isQuoted := false, isQuoting := false }]])
+    | .bs c => (env, .ok [[quoteChar '\\', quotedLit c]])
+    | .param p m => posixParam env willSplit p (resolve env p) m
+
+  def posixParam (env : Env) (willSplit : Bool) (p : Param) (v : Option Value) : Modifier → SRes
+    | .none =>
+      if v = none ∧ env.nounset = true then (env, .error .unsetParameter)
+      else (env, .ok (paramFields env willSplit p v))
+    | .length =>
+      if v = none ∧ env.nounset = true then (env, .error .unsetParameter)
+      else (env, .ok (paramFields env willSplit p (lengthOf v)))
+    | .trim side len w =>
+      if v = none ∧ env.nounset = true then (env, .error .unsetParameter)
+      else
+        match v with
+        | none => (env, .ok (paramFields env willSplit p none))
+        | some val =>
+          match posixWord env willSplit w with
+          | (env', .error e) => (env', .error e)
+          | (env', .ok pat) =>
+            let pattern := toPatternChars (applyEscapes (joinBySep env' pat))
+            (env', .ok (paramFields env' willSplit p (some (trimApply pattern side len val))))
+    | .switch cond act w =>
+      match posixTable act cond (PState.of v) with
+      | .substituteParameter => (env, .ok (paramFields env willSplit p v))
+      | .substituteNull => (env, .ok (paramFields env willSplit p v))
+      | .substituteWord =>
+        match posixWord env willSplit w with
+        | (env', .error e) => (env', .error e)
+        | (env', .ok fs) => (env', .ok (soften fs))
+      | .assignWord =>
+        match p with
+        | .var name =>
+          match posixWord env willSplit w with
+          | (env', .error e) => (env', .error e)
+          | (env', .ok fs) =>
+            let final := removeQuotesAndStrip (joinBySep env' (soften fs))
+            match env'.assign name final with
+            | none => (env', .error (.readOnly (vacancyOf v)))
+            | some env'' => (env'', .ok [toField final])
+        | _ => (env, .error (.nonassignable (vacancyOf v)))
+      | .error =>
+        if w.isNil then (env, .error (.vacant (vacancyOf v) none))
+        else
+          match posixWord env true w with
+          | (env', .error e) => (env', .error e)
+          | (env', .ok fs) =>
+            (env', .error (.vacant (vacancyOf v) (some (removeQuotesAndStrip (joinBySep env' fs)))))
+
+  def posixTextGo (env : Env) (willSplit : Bool) (acc : Fields) : Text → SRes
+    | .nil => (env, .ok acc)
+    | .cons u t =>
+      match posixTextUnit env willSplit u with
+      | (env', .error e) => (env', .error e)
+      | (env', .ok fs) => posixTextGo env' willSplit (joinFields acc fs) t
+
+  def posixWordUnit (env : Env) (willSplit : Bool) : WordUnit → SRes
+    | .unq u => posixTextUnit env willSplit u
+    | .sq s => (env, .ok [[quoteChar '\''] ++ s.map quotedLit ++ [quoteChar '\'']])
+    | .dsq s => (env, .ok [[quoteChar '$', quoteChar '\''] ++ s.map quotedLit ++ [quoteChar '\'']])
+    | .dq t =>
+      -- the content never splits, whatever the context of the quotes; an empty content is one empty field
+      match (if t.isNil then (env, .ok [[]]) else posixTextGo env false [] t) with
+      | (env', .error e) => (env', .error e)
+      | (env', .ok fs) => (env', .ok (fs.map quoteField))
+
+  def posixWordGo (env : Env) (willSplit : Bool) (acc : Fields) : Word → SRes
+    | .nil => (env, .ok acc)
+    | .cons u w =>
+      match posixWordUnit env willSplit u with
+      | (env', .error e) => (env', .error e)
+      | (env', .ok fs) => posixWordGo env' willSplit (joinFields acc fs) w
+
+  /-- a word: its units in order, each in the environment its predecessors left and in the same
+      splitting context; no unit at all is one empty field -/
+  def posixWord (env : Env) (willSplit : Bool) : Word → SRes
+    | .nil => (env, .ok [[]])
+    | .cons u w =>
+      match posixWordUnit env willSplit u with
+      | (env', .error e) => (env', .error e)
+      | (env', .ok fs) => posixWordGo env' willSplit fs w
+end
+
+/-- XCU 2.6 for a word used as a command argument (pathname expansion off): initial expansion,
+    field splitting of every field with the recursive splitter under the IFS then in force, quote
+    removal -/
+def posixExpandArg (env : Env) (w : Word) : Env × Except Err (List (List Char)) :=
+  match posixWord env true w with
+  | (env', .error e) => (env', .error e)
+  | (env', .ok fs) => (env', .ok ((fs.flatMap (specFields env'.ifs.classifyAttr)).map removeQuotesAndStrip))
+
+/-- a list of words (command arguments, `for` list, array assignment): word by word, each in the
+    environment its predecessors left; the first error ends the list -/
+def posixExpandArgs (env : Env) : List Word → Env × Except Err (List (List Char))
+  | [] => (env, .ok [])
+  | w :: ws =>
+    match posixExpandArg env w with
+    | (env', .error e) => (env', .error e)
+    | (env', .ok fs) =>
+      match posixExpandArgs env' ws with
+      | (env'', .error e) => (env'', .error e)
+      | (env'', .ok gs) => (env'', .ok (fs ++ gs))
+
+/-- here-document contents: text units only, one field -/
+def posixExpandText (env : Env) (t : Text) : Env × Except Err (List Char) :=
+  match (if t.isNil then (env, .ok [[]]) else posixTextGo env true [] t) with
+  | (env', .error e) => (env', .error e)
+  | (env', .ok fs) => (env', .ok (removeQuotesAndStrip (joinBySep env' fs)))
+
+/-- XCU 2.9.1 assignment / here-document context: no splitting, fields joined by the `$*` separator -/
+def posixExpandSingle (env : Env) (w : Word) : Env × Except Err (List Char) :=
+  match posixWord env true w with
+  | (env', .error e) => (env', .error e)
+  | (env', .ok fs) => (env', .ok (removeQuotesAndStrip (joinBySep env' fs)))
+
+/-! ## Words made of quoting forms only -/
+
+/-- the character a literal or backslash-escaped text unit stands for -/
+def TextUnit.plain : TextUnit → Option Char
+  | .lit c => some c
+  | .bs c => some c
+  | .param _ _ => none
+
+def Text.plain : Text → Option (List Char)
+  | .nil => some []
+  | .cons u t =>
+    match u.plain, t.plain with
+    | some c, some r => some (c :: r)
+    | _, _ => none
+
+/-- what a unit encloses, when it contains no expansion -/
+def WordUnit.plain : WordUnit → Option (List Char)
+  | .unq u => u.plain.map (fun c => [c])
+  | .sq s => some s
+  | .dsq s => some s
+  | .dq t => t.plain
+
+/-- the string a word without expansions stands for: the enclosed characters, in order -/
+def Word.plain : Word → Option (List Char)
+  | .nil => some []
+  | .cons u w =>
+    match u.plain, w.plain with
+    | some a, some r => some (a ++ r)
+    | _, _ => none
+
 /-! ## `read` -/
 
 /-- the text from `start` to the end without trailing IFS white space -/
